@@ -56,12 +56,12 @@ def known(ctx, finding):
 def plan(tier, seed):
     q = tier == "quick"
     n = 16 if q else 32
-    specs = [{"kind": "exh", "i": i, "n": n, "max_obj": 3 if q else 4, "max_sp": 3, "nrand": 110 if q else 450, "nemptyroot": 50 if q else 250} for i in range(n)]
+    specs = [{"kind": "exh", "i": i, "n": n, "max_obj": 3 if q else 4, "max_sp": 3, "nrand": 110 if q else 450, "nemptyroot": 50 if q else 250, "ncrowded": 80 if q else 400} for i in range(n)]
     specs.append({"kind": "fixtures"})
     return specs
 
 
-def check_scene(ctx, scene, rng, salt="", forced=None):
+def check_scene(ctx, scene, rng, salt="", forced=None, bimodal=False):
     perturb = rng.random() < 0.6
     pseed = rng.randrange(10**9)
     hi = rng.choice([100, 100, 30, 8])
@@ -70,14 +70,16 @@ def check_scene(ctx, scene, rng, salt="", forced=None):
     case = scene.full_case()
     if salt:
         case["stub_salt"] = salt
+    if bimodal:
+        case["stub_bimodal"] = True
     res = {}
     for orient, swap in (("VERTICAL", False), ("HORIZONTAL", True)):
         params = R.perturbed_params(random.Random(pseed) if perturb else None, orient)  # same perturbation for both orientations
-        stub = render_stub.Stub(swap=swap, lo=1, hi=hi, salt=salt)
+        stub = render_stub.Stub(swap=swap, lo=1, hi=hi, salt=salt, bimodal=bimodal)
         try:
             lay, code = R.draw(scene, params, stub)
             L = R.extract_layout(scene, lay)
-            lay2, _ = R.draw(scene, params, render_stub.Stub(swap=swap, lo=1, hi=hi, salt=salt))
+            lay2, _ = R.draw(scene, params, render_stub.Stub(swap=swap, lo=1, hi=hi, salt=salt, bimodal=bimodal))
             L2 = R.extract_layout(scene, lay2)
         except Exception as exc:  # noqa: BLE001
             ctx.viol("C14.crash", dict(case, orientation=orient), f"layout/render raised {type(exc).__name__}: {exc}")
@@ -192,6 +194,20 @@ def run(ctx, spec):
                 check_scene(ctx, R.Scene(dict(case, mapping={str(a): b for a, b in m.items()})), rng, salt=salt)
         if ctx.too_many():
             return
+    # crowded trunks: 6-12 genes in one or two species, so that many duplication / transfer nodes are stacked in the same
+    # trunk, with node sizes from 1 to 100 (three salts each)
+    for k in range(spec.get("ncrowded", 20)):
+        ns = rng.choice([1, 2, 2])
+        sp = rng.sample(list("ABCD"), ns)
+        no = rng.randint(6, 12)
+        leaves = [f"{rng.choice(sp)}_{i}" for i in range(no)]
+        case = {"kind": "render", "G": RT.random_tree_shape(rng, leaves), "S": (sp[0] if ns == 1 else [sp[0], sp[1]]), "leafmap": {g: g.split("_")[0] for g in leaves},
+                "costs": dict(gen.DEFAULT), "rseed": rng.randrange(10**9)}
+        for j, salt in enumerate(("", f"c{k}", f"d{k}", f"e{k}", f"f{k}", f"g{k}")):
+            ctx.count("mon.crowded_scenes")
+            check_scene(ctx, R.Scene(case), rng, salt=salt, bimodal=j >= 2, forced=(False, 0, 100) if j >= 2 else None)
+        if ctx.too_many():
+            return
     for _ in range(spec["nrand"]):
         check_scene(ctx, R.Scene(R.make_case(rng, 12, 8) if rng.random() < 0.4 else R.make_case(rng, 10, 6)), rng)
         if ctx.too_many():
@@ -201,10 +217,11 @@ def run(ctx, spec):
 def replay(ctx, case):
     if case.get("kind") == "fixture":
         return fixtures(ctx, "C14", lambda scene, rng: check_scene(ctx, scene, rng))
-    base = {k: v for k, v in case.items() if k not in ("orientation", "perturbed", "hi", "pseed", "stub_salt")}
+    base = {k: v for k, v in case.items() if k not in ("orientation", "perturbed", "hi", "pseed", "stub_salt", "stub_bimodal")}
     salt = case.get("stub_salt", "")
+    bim = bool(case.get("stub_bimodal"))
     if case.get("pseed") is not None and case.get("hi") is not None:
         # the recorded drawing parameters and node sizes first
-        check_scene(ctx, R.Scene(base), random.Random(0), salt=salt, forced=(bool(case.get("perturbed")), case["pseed"], case["hi"]))
+        check_scene(ctx, R.Scene(base), random.Random(0), salt=salt, forced=(bool(case.get("perturbed")), case["pseed"], case["hi"]), bimodal=bim)
     for seed in range(6):
-        check_scene(ctx, R.Scene(base), random.Random(seed), salt=salt)
+        check_scene(ctx, R.Scene(base), random.Random(seed), salt=salt, bimodal=bim)
